@@ -167,3 +167,10 @@ def run(P: Program, R: Report, tier: str) -> None:
         (isinstance(s_.targets[0].value, ast.Subscript) and norm(s_.targets[0].value.value) == tbl)
         or (isinstance(s_.targets[0].value, ast.Call) and call_name(s_.targets[0].value) == "setdefault" and norm(s_.targets[0].value.func.value) == tbl))]
     R.check(bool(inner), "R18.3", g, g.node, "_get_iou_dict adds overlaps entry by entry", "", via="accumulator")
+    # ---- R18.4 the IoU kernel of the candidate graph treats labels as names (no arithmetic in the image dtype)
+    from .labels import labels_are_names
+
+    ks = [f for f in P.find_funcs("_compute_ious") if ".candidate_graph." in f.qname and f.parent is None]
+    if len(ks) != 1:
+        raise AnalysisError(f"IoU kernel of the candidate-graph package: found {len(ks)}")
+    labels_are_names(P, R, ks[0], "R18.4")
